@@ -1,8 +1,10 @@
 package main
 
 import (
+	"bytes"
 	"fmt"
 	"go/ast"
+	"go/printer"
 	"go/token"
 	"sort"
 	"strings"
@@ -585,6 +587,74 @@ func genBackends(c *ctx) *leanFile {
 	l.boolean("lookupFirstMatchWins", firstMatch, firstMatch, "getBackendLocked: `for _, entry := range entries` returning `entry` at the first match (two return sites) not found")
 	l.boolean("lookupUsesHasPrefix", prefixArgs, prefixArgs, "getBackendLocked: strings.HasPrefix(url, entry.url) not found")
 	l.boolean("lookupAppendsSlash", slashAppended, slashAppended, "getBackendLocked: `if url[len(url)-1] != '/' { url += \"/\" }` not found")
+
+	// ---- BackendConfiguration.GetBackend: `if hasDotSegments(u) { return nil }` before the storage lookup ----
+	dotGuard := false
+	if fd := findFunc(cfgFile, "BackendConfiguration", "GetBackend"); fd != nil && fd.Body != nil {
+		for _, st := range fd.Body.List {
+			is, ok := st.(*ast.IfStmt)
+			if !ok || len(is.Body.List) != 1 {
+				continue
+			}
+			call, ok := is.Cond.(*ast.CallExpr)
+			if !ok || !isIdent(call.Fun, "hasDotSegments") {
+				continue
+			}
+			if rs, ok := is.Body.List[0].(*ast.ReturnStmt); ok && len(rs.Results) == 1 && isIdent(rs.Results[0], "nil") {
+				dotGuard = true
+			}
+		}
+	}
+	// a tree without the guard is fine too (the fact is then `false`); what must not happen is a guard of another shape
+	hasFn := findFunc(cfgFile, "", "hasDotSegments") != nil
+	l.boolean("lookupRefusesDotSegments", dotGuard, dotGuard == hasFn,
+		"BackendConfiguration.GetBackend: hasDotSegments exists but `if hasDotSegments(u) { return nil }` not found")
+
+	// ---- operations that can panic on the reload / etcd-event path (index, slice, type assertion, panic) ----
+	// Listed verbatim so that a new one has to be audited (Props/C13: C13_reload_path_audit).
+	type fn struct{ file, recv, name string }
+	var partial []string
+	okPartial := true
+	for _, f := range []fn{
+		{"backend_storage_static.go", "backendStorageStatic", "Reload"},
+		{"backend_storage_static.go", "backendStorageStatic", "RemoveBackendsForHost"},
+		{"backend_storage_static.go", "backendStorageStatic", "UpsertHost"},
+		{"backend_storage_static.go", "", "getConfiguredHosts"},
+		{"backend_storage_static.go", "", "getConfiguredBackendIDs"},
+		{"backend_storage_etcd.go", "backendStorageEtcd", "EtcdKeyUpdated"},
+		{"backend_storage_etcd.go", "backendStorageEtcd", "EtcdKeyDeleted"},
+		{"backend_storage_etcd.go", "backendStorageEtcd", "removeBackendLocked"},
+	} {
+		fd := findFunc(c.file(f.file), f.recv, f.name)
+		if fd == nil || fd.Body == nil {
+			if f.name == "removeBackendLocked" {
+				continue // helper introduced by a fix; absent on older trees
+			}
+			okPartial = false
+			continue
+		}
+		show := func(n ast.Node) string {
+			var buf bytes.Buffer
+			printer.Fprint(&buf, c.fset, n)
+			return f.name + ": " + strings.Join(strings.Fields(buf.String()), " ")
+		}
+		ast.Inspect(fd.Body, func(n ast.Node) bool {
+			switch x := n.(type) {
+			case *ast.IndexExpr:
+				partial = append(partial, show(x))
+			case *ast.SliceExpr:
+				partial = append(partial, show(x))
+			case *ast.TypeAssertExpr:
+				partial = append(partial, show(x))
+			case *ast.CallExpr:
+				if isIdent(x.Fun, "panic") {
+					partial = append(partial, show(x))
+				}
+			}
+			return true
+		})
+	}
+	l.strList("reloadPathPartialOps", partial, okPartial, "a function of the reload / etcd-event path was not found")
 
 	// ---- static Reload guard ----
 	staticFile := c.file("backend_storage_static.go")
